@@ -188,5 +188,23 @@ func selectLeaves(ls []cborLeaf, budget int) []cborLeaf {
 		}
 		out = append(out, g[0], g[len(g)/2], g[len(g)-2], g[len(g)-1])
 	}
+	if len(out) > budget && budget > 0 {
+		// still too many (light cases): keep the groups with the most elements (the repeated
+		// response arrays), first / middle / last of each
+		sort.SliceStable(shapes, func(i, j int) bool { return len(byShape[shapes[i]]) > len(byShape[shapes[j]]) })
+		out = out[:0]
+		for _, s := range shapes {
+			g := byShape[s]
+			pick := []cborLeaf{g[0], g[len(g)/2], g[len(g)-1]}
+			if len(g) < 3 {
+				pick = g
+			}
+			for _, l := range pick {
+				if len(out) < budget {
+					out = append(out, l)
+				}
+			}
+		}
+	}
 	return out
 }
